@@ -104,7 +104,11 @@ class Parser:
             raise PestGrammarError("grammar is nested too deeply") from err
 
     def __str__(self) -> str:
-        doc = "".join(f"//!{line}\n" for line in self.doc) + "\n" if self.doc else ""
+        doc = (
+            "".join(f"//! {line}".rstrip() + "\n" for line in self.doc) + "\n"
+            if self.doc
+            else ""
+        )
         return doc + "\n\n".join(str(rule) for rule in self.rules.values())
 
     def parse(self, start_rule: str, text: str, *, start_pos: int = 0) -> Pairs:
